@@ -26,6 +26,12 @@ CLAIMED = {
         "Tie order among equal-priority events is not asserted. Scheduler runtime 0, no preemption.",
         "DESIGN.md 3 C03",
     ),
+    "C04": (
+        "model-based operation histories (Hypothesis op-lists) on Resources, Worker and WorkerPools against a reference ledger, plus the end-to-end ledger clause on simulated worlds",
+        "After every generated operation the public getters of the real objects (and of every copy made so far) are compared with a reference ledger; refusals must leave every getter unchanged; removing everything must restore capacity. Stateful exploration of short histories.",
+        "Which instance serves an 'any' request is read back and validated by conservation; tasks are never placed twice.",
+        "DESIGN.md 3 C04",
+    ),
     "C05": (
         "Hypothesis-generated worlds; deterministic livelock detection in the harness (no wall-clock oracle) plus end-state predicates for feasible work under work-conserving policies",
         "simulate() must return with a SIMULATOR_END no later than the timeout; non-termination is proven from the deterministic loop (repeated zero-length steps or scheduler invocations with no state change), never guessed from time. Feasible work under EDF/FIFO/LSF must be complete and no runnable released task may remain when the run ends early. Exploration; liveness only up to the step budget.",
